@@ -1,5 +1,515 @@
 package c07
 
-import "verifharness/hk"
+import (
+	"fmt"
+	"sort"
+	"strconv"
+	"strings"
+	"time"
 
-func Run(r *hk.Run) { r.Note("wip") }
+	"perkeep.org/pkg/schema"
+
+	"verifharness/hk"
+)
+
+// ---- the generator's own record of what it delivered (input side of the oracle) ------------------------
+
+type gclaim struct {
+	id     int
+	p      int // permanode whose claim rows it joins; -1 for a delete claim that targets a claim
+	s      int
+	kind   string // set|add|del|delete
+	attr   string
+	val    string
+	date   int64
+	tgt    string // delete claims: c<id> | p<p>
+	tgtID  int    // delete claims targeting a claim
+	isDel  bool
+	rk     uint64
+	arrive int
+}
+
+type gen struct {
+	r      *hk.Run
+	w      *world
+	ex     func([]string) string
+	claims []*gclaim
+	byID   map[int]*gclaim
+	nextID int
+	ops    []string
+	now    int64
+}
+
+func newGenWorld(r *hk.Run) *gen {
+	w := newWorld()
+	g := &gen{r: r, w: w, byID: map[int]*gclaim{}, nextID: 1, now: time.Now().Unix()}
+	g.ex = func(ws []string) string { return hk.Guard(func() string { return w.exec(ws) }) }
+	return g
+}
+
+func (g *gen) op(line string) string {
+	out := g.ex(strings.Fields(line))
+	g.ops = append(g.ops, line)
+	if g.r != nil {
+		g.r.Op(line, out)
+	}
+	return out
+}
+
+func (g *gen) pn(p int) { g.op(fmt.Sprintf("pn %d", p)) }
+
+func tArg(t int64) string {
+	if t == 0 {
+		return "z"
+	}
+	return strconv.FormatInt(t, 10)
+}
+
+// claim delivers an attribute claim and returns it (nil if the implementation refused it)
+func (g *gen) claim(p, s int, kind, attr, val string, date int64) *gclaim {
+	var b *schema.Builder
+	switch kind {
+	case "set":
+		b = schema.NewSetAttributeClaim(g.w.pn[p], attr, val)
+	case "add":
+		b = schema.NewAddAttributeClaim(g.w.pn[p], attr, val)
+	default:
+		b = schema.NewDelAttributeClaim(g.w.pn[p], attr, val)
+	}
+	b.SetClaimDate(time.Unix(date, 0).UTC())
+	tb, err := signBlob(g.w.ss[s], g.w.pubs, b)
+	if err != nil {
+		panic(err)
+	}
+	c := &gclaim{id: g.nextID, p: p, s: s, kind: kind, attr: attr, val: val, date: date, rk: refKey(tb.BlobRef())}
+	g.nextID++
+	out := g.op(fmt.Sprintf("claim %d %d %d %s %s %s %d %d", c.id, p, s, kind, hk.Hex([]byte(attr)), hk.Hex([]byte(val)), date, c.rk))
+	if out != "ok" {
+		return nil
+	}
+	g.noteArrival(c)
+	c.arrive = len(g.claims)
+	g.claims = append(g.claims, c)
+	g.byID[c.id] = c
+	return c
+}
+
+// noteArrival counts which branch of fixupLastClaim / appendAttrClaim the arriving claim row takes
+func (g *gen) noteArrival(c *gclaim) {
+	if g.r == nil || c.p < 0 {
+		return
+	}
+	n, max := 0, int64(-1)
+	signers := map[int]bool{}
+	for _, o := range g.claims {
+		if o.p == c.p {
+			n++
+			signers[o.s] = true
+			if o.date > max {
+				max = o.date
+			}
+		}
+	}
+	switch {
+	case n == 0:
+		g.r.Hit("mechanism:fixupLastClaim:first-claim-restoreInvariants")
+	case c.date > max:
+		g.r.Hit("mechanism:fixupLastClaim:append")
+	case c.date == max:
+		g.r.Hit("mechanism:fixupLastClaim:tie-resort")
+	default:
+		g.r.Hit("mechanism:fixupLastClaim:out-of-order-resort")
+	}
+	if !signers[c.s] {
+		g.r.Hit(fmt.Sprintf("mechanism:appendAttrClaim:new-signer-after-%d", len(signers)))
+	}
+}
+
+// del delivers a delete claim targeting tgt ("c<id>" or "p<p>")
+func (g *gen) del(tgt string, s int, date int64) *gclaim {
+	ref, pn, ok := g.w.target(tgt)
+	if !ok {
+		panic("bad target " + tgt)
+	}
+	b := schema.NewDeleteClaim(ref)
+	b.SetClaimDate(time.Unix(date, 0).UTC())
+	tb, err := signBlob(g.w.ss[s], g.w.pubs, b)
+	if err != nil {
+		panic(err)
+	}
+	c := &gclaim{id: g.nextID, p: pn, s: s, kind: "delete", date: date, tgt: tgt, isDel: true, rk: refKey(tb.BlobRef()), tgtID: -1}
+	if tgt[0] == 'c' {
+		c.tgtID, _ = strconv.Atoi(tgt[1:])
+	}
+	g.nextID++
+	out := g.op(fmt.Sprintf("delete %d %s %d %d %d", c.id, tgt, s, date, c.rk))
+	if out != "ok" {
+		return nil
+	}
+	g.noteArrival(c)
+	c.arrive = len(g.claims)
+	g.claims = append(g.claims, c)
+	g.byID[c.id] = c
+	return c
+}
+
+// ---- the spec, computed independently of implementation and model ----------------------------------------
+
+// specDeleted: x is deleted iff some delete claim targets x that is not itself deleted.
+func (g *gen) specDeleted(tgt string) bool {
+	for _, d := range g.claims {
+		if d.isDel && d.tgt == tgt && !g.specDeleted("c"+strconv.Itoa(d.id)) {
+			return true
+		}
+	}
+	return false
+}
+
+func specStep(vs []string, c *gclaim) []string {
+	switch c.kind {
+	case "set":
+		return []string{c.val}
+	case "add":
+		return append(append([]string(nil), vs...), c.val)
+	case "del":
+		if c.val == "" {
+			return nil
+		}
+		var out []string
+		for _, v := range vs {
+			if v != c.val {
+				out = append(out, v)
+			}
+		}
+		return out
+	}
+	return vs
+}
+
+func (g *gen) effT(t int64) int64 {
+	if t == 0 {
+		return g.now
+	}
+	return t
+}
+
+func signerOK(f string, s int) bool {
+	switch f {
+	case "a":
+		return true
+	case "0":
+		return s == 0
+	case "1":
+		return s == 1
+	}
+	return false
+}
+
+// relevant returns the attribute claims of permanode p that count for (attr, T, f), in date order
+// (ties in arrival order); withDeleted also keeps claims that are deleted.
+func (g *gen) relevant(p int, attr string, t int64, f string, withDeleted bool) (cs []*gclaim, sawDeleted bool) {
+	et := g.effT(t)
+	for _, c := range g.claims {
+		if c.isDel || c.p != p || c.attr != attr || c.date > et || !signerOK(f, c.s) {
+			continue
+		}
+		if g.specDeleted("c" + strconv.Itoa(c.id)) {
+			sawDeleted = true
+			if !withDeleted {
+				continue
+			}
+		}
+		cs = append(cs, c)
+	}
+	sort.SliceStable(cs, func(i, j int) bool { return cs[i].date < cs[j].date })
+	return cs, sawDeleted
+}
+
+const maxLinearisations = 3000
+
+// linearise folds every date-respecting order of cs (equal dates are unordered) and returns the set
+// of possible value lists; ok=false if there are too many orders to enumerate.
+func linearise(cs []*gclaim) (res map[string][]string, ties bool, ok bool) {
+	res = map[string][]string{}
+	count := 0
+	var rec func(i int, vs []string) bool
+	rec = func(i int, vs []string) bool {
+		if i == len(cs) {
+			count++
+			res[strings.Join(vs, "\x00")+fmt.Sprintf("\x01%d", len(vs))] = vs
+			return count <= maxLinearisations
+		}
+		j := i
+		for j < len(cs) && cs[j].date == cs[i].date {
+			j++
+		}
+		if j-i == 1 {
+			return rec(j, specStep(vs, cs[i]))
+		}
+		ties = true
+		grp := append([]*gclaim(nil), cs[i:j]...)
+		var perm func(k int, vs []string) bool
+		perm = func(k int, vs []string) bool {
+			if k == len(grp) {
+				return rec(j, vs)
+			}
+			for m := k; m < len(grp); m++ {
+				grp[k], grp[m] = grp[m], grp[k]
+				if !perm(k+1, specStep(vs, grp[k])) {
+					return false
+				}
+				grp[k], grp[m] = grp[m], grp[k]
+			}
+			return true
+		}
+		return perm(0, vs)
+	}
+	ok = rec(0, nil)
+	return res, ties, ok
+}
+
+// ---- one query on one path, with its oracle ---------------------------------------------------------------
+
+func showStrs(vs []string) string { return showVals(vs) }
+
+func parseVals(s string) []string {
+	f := strings.Fields(s)
+	if len(f) == 0 {
+		return nil
+	}
+	var out []string
+	for _, h := range f[1:] {
+		b, _ := hk.UnHex(h)
+		out = append(out, string(b))
+	}
+	return out
+}
+
+func contains(vs []string, v string) bool {
+	for _, x := range vs {
+		if x == v {
+			return true
+		}
+	}
+	return false
+}
+
+// check compares an observed answer with the spec's set of acceptable answers; proj projects a spec
+// value list to the answer format of the query.
+func (g *gen) check(kind, mode string, p int, attr string, t int64, f string, observed string, proj func([]string) string, line string) {
+	r := g.r
+	if r == nil {
+		return
+	}
+	cs, sawDel := g.relevant(p, attr, t, f, false)
+	want, ties, ok := linearise(cs)
+	if !ok {
+		r.Hit("oracle:too-many-linearisations")
+		return
+	}
+	if ties {
+		r.Hit("oracle:ties-any-linearisation-accepted")
+	}
+	var wants []string
+	for _, vs := range want {
+		wants = append(wants, proj(vs))
+	}
+	sort.Strings(wants)
+	for _, w := range wants {
+		if w == observed {
+			return
+		}
+	}
+	sig := kind + "-differs-" + mode
+	if mode != "idx" && sawDel {
+		// does the answer equal the fold that ignores deletions of attribute claims?
+		csAll, _ := g.relevant(p, attr, t, f, true)
+		if all, _, ok := linearise(csAll); ok {
+			for _, vs := range all {
+				if proj(vs) == observed {
+					sig = "corpus-attr-query-ignores-claim-deletion"
+					break
+				}
+			}
+		}
+	}
+	r.Fail(sig, fmt.Sprintf("%s: permanode %d attr %q T=%s filter=%s", line, p, attr, tArg(t), f),
+		strings.Join(wants, " | "), observed, append([]string(nil), g.ops...))
+}
+
+func first(vs []string) string {
+	if len(vs) == 0 {
+		return hk.Hex(nil)
+	}
+	return hk.Hex([]byte(vs[0]))
+}
+
+var corpusModes = []string{"inc", "load"}
+var allModes = []string{"idx", "inc", "load"}
+
+func (g *gen) qAttr(mode string, p int, attr string, t int64, f string) {
+	line := fmt.Sprintf("attr %s %d %s %s %s", mode, p, hk.Hex([]byte(attr)), tArg(t), f)
+	out := g.op(line)
+	g.check("attr", mode, p, attr, t, f, out, first, line)
+}
+
+func (g *gen) qVals(mode string, p int, attr string, t int64, f string) {
+	line := fmt.Sprintf("vals %s %d %s %s %s", mode, p, hk.Hex([]byte(attr)), tArg(t), f)
+	out := g.op(line)
+	g.check("vals", mode, p, attr, t, f, out, showStrs, line)
+}
+
+func (g *gen) qHas(mode string, p int, attr, val string, t int64) {
+	line := fmt.Sprintf("has %s %d %s %s %s", mode, p, hk.Hex([]byte(attr)), hk.Hex([]byte(val)), tArg(t))
+	out := g.op(line)
+	g.check("has", mode, p, attr, t, "a", out, func(vs []string) string { return b2s(contains(vs, val)) }, line)
+}
+
+// qVia observes which source the corpus uses; the cache may only be used when no claim row of the
+// permanode is dated after the (effective) query time.
+func (g *gen) qVia(mode string, p int, t int64, f string) {
+	line := fmt.Sprintf("via %s %d %s %s", mode, p, tArg(t), f)
+	out := g.op(line)
+	if g.r == nil {
+		return
+	}
+	g.r.Hit("via:" + out)
+	if out == "cache" {
+		et := g.effT(t)
+		for _, c := range g.claims {
+			if c.p == p && c.date > et {
+				g.r.Fail("cache-used-although-newer-claims-"+mode, line, "fold", out, append([]string(nil), g.ops...))
+				break
+			}
+		}
+	}
+}
+
+func (g *gen) qDeleted(mode, tgt string) {
+	line := fmt.Sprintf("deleted %s %s", mode, tgt)
+	out := g.op(line)
+	if g.r == nil {
+		return
+	}
+	want := b2s(g.specDeleted(tgt))
+	g.r.Hit("deleted:" + out)
+	if out != want {
+		g.r.Fail("isdeleted-differs-"+mode, line, want, out, append([]string(nil), g.ops...))
+	}
+}
+
+func (g *gen) qClaims(mode string, p int, f string, attr string) {
+	af := "*"
+	if attr != "" {
+		af = hk.Hex([]byte(attr))
+	}
+	line := fmt.Sprintf("claims %s %d %s %s", mode, p, f, af)
+	out := g.op(line)
+	if g.r == nil {
+		return
+	}
+	// spec: the non-deleted claim rows of p of that signer (and attribute); any order for the index
+	// (interface.go: "may be appended in any order"), date order for the corpus
+	want := map[int]bool{}
+	for _, c := range g.claims {
+		if c.p == p && signerOK(f, c.s) && (attr == "" || c.attr == attr) && !g.specDeleted("c"+strconv.Itoa(c.id)) {
+			want[c.id] = true
+		}
+	}
+	got := map[int]bool{}
+	var dates []int64
+	okSet := true
+	if out != "-" {
+		for _, w := range strings.Fields(out) {
+			id, err := strconv.Atoi(w)
+			if err != nil || got[id] || !want[id] {
+				okSet = false
+				break
+			}
+			got[id] = true
+			dates = append(dates, g.byID[id].date)
+		}
+	}
+	if !okSet || len(got) != len(want) {
+		g.r.Fail("appendclaims-set-"+mode, line, fmt.Sprint(len(want))+" claims", out, append([]string(nil), g.ops...))
+		return
+	}
+	if mode != "idx" && !sort.SliceIsSorted(dates, func(i, j int) bool { return dates[i] < dates[j] }) {
+		g.r.Fail("appendclaims-order-"+mode, line, "date order", out, append([]string(nil), g.ops...))
+	}
+}
+
+func (g *gen) qOrder(mode string, p int) {
+	line := fmt.Sprintf("order %s %d", mode, p)
+	out := g.op(line)
+	if g.r == nil {
+		return
+	}
+	n := 0
+	for _, c := range g.claims {
+		if c.p == p {
+			n++
+		}
+	}
+	var dates []int64
+	seen := map[int]bool{}
+	ok := true
+	if out != "-" {
+		for _, w := range strings.Fields(out) {
+			id, err := strconv.Atoi(w)
+			c := g.byID[id]
+			if err != nil || c == nil || c.p != p || seen[id] {
+				ok = false
+				break
+			}
+			seen[id] = true
+			dates = append(dates, c.date)
+		}
+	}
+	if !ok || len(seen) != n {
+		g.r.Fail("corpus-claims-set-"+mode, line, fmt.Sprint(n)+" claim rows", out, append([]string(nil), g.ops...))
+		return
+	}
+	if !sort.SliceIsSorted(dates, func(i, j int) bool { return dates[i] < dates[j] }) {
+		g.r.Fail("corpus-claims-unsorted-"+mode, line, "date order", out, append([]string(nil), g.ops...))
+	}
+}
+
+// qLocation: the real LocationHelper of the index without corpus (oracle only; outside the model's
+// protocol because it parses floats): latitude/longitude attributes of p.
+func (g *gen) qLocation(p int, t int64, f string) {
+	if g.r == nil {
+		return
+	}
+	at := time.Time{}
+	if t != 0 {
+		at = time.Unix(t, 0).UTC()
+	}
+	got := hk.Guard(func() string { return g.w.location(p, at, f) })
+	g.r.ImplOnly("location-idx")
+	la, _ := g.relevant(p, "latitude", t, f, false)
+	lo, _ := g.relevant(p, "longitude", t, f, false)
+	wla, t1, ok1 := linearise(la)
+	wlo, t2, ok2 := linearise(lo)
+	if !ok1 || !ok2 || t1 || t2 {
+		return
+	}
+	want := "none"
+	for _, a := range wla {
+		for _, o := range wlo {
+			if len(a) > 0 && len(o) > 0 && a[0] != "" && o[0] != "" {
+				la, err1 := strconv.ParseFloat(a[0], 64)
+				lo, err2 := strconv.ParseFloat(o[0], 64)
+				if err1 != nil || err2 != nil {
+					want = "err" // location.go reports a value that is not a number
+				} else {
+					want = fmt.Sprintf("%g %g", la, lo)
+				}
+			}
+		}
+	}
+	if got != want {
+		g.r.Fail("location-idx-differs", fmt.Sprintf("PermanodeLocation(p%d, T=%s, f=%s) on the index without corpus", p, tArg(t), f),
+			want, got, append([]string(nil), g.ops...))
+	}
+}
